@@ -135,19 +135,31 @@ func genC06(t *rapid.T) C06Case {
 			// worst case for the block quotient estimate: smallest normalised top word, low half all nines,
 			// quotient as long and as large as a block allows
 			v[0] = h.Base/2 + uint64(rapid.IntRange(0, 1).Draw(t, "advtop"))
+			zeroUpper := rapid.Bool().Draw(t, "advzero")
+			for i := 1; i < n/2 && zeroUpper; i++ {
+				v[i] = 0 // upper half: 5*10^18 then zeros
+			}
 			for i := n / 2; i < n; i++ {
 				if rapid.IntRange(0, 15).Draw(t, "advlow") > 0 {
 					v[i] = h.Base - 1
 				}
 			}
 			vb = wordsBig(v)
-			k := n/2 + rapid.IntRange(-1, 2).Draw(t, "advk")
-			q := make([]uint64, k)
-			for i := range q {
-				q[i] = h.Base - 1 - uint64(rapid.IntRange(0, 2).Draw(t, "advq"))
+			if rapid.Bool().Draw(t, "advshort") {
+				// a short dividend (leading digits 2.5 .. 5) shifted so that the quotient fills whole blocks
+				lead := uint64(rapid.IntRange(25, 50).Draw(t, "advlead")) * (h.Base / 100)
+				blocks := rapid.IntRange(1, 3).Draw(t, "advblocks")
+				shift := n + blocks*(n/2) + rapid.IntRange(-2, 2).Draw(t, "advshift")
+				ub = new(big.Int).Mul(new(big.Int).SetUint64(lead), new(big.Int).Exp(bigBase, big.NewInt(int64(shift)), nil))
+			} else {
+				k := n/2 + rapid.IntRange(-1, 2).Draw(t, "advk")
+				q := make([]uint64, k)
+				for i := range q {
+					q[i] = h.Base - 1 - uint64(rapid.IntRange(0, 2).Draw(t, "advq"))
+				}
+				ub = new(big.Int).Mul(wordsBig(q), vb)
+				ub.Add(ub, big.NewInt(int64(rapid.IntRange(0, 1).Draw(t, "advr"))))
 			}
-			ub = new(big.Int).Mul(wordsBig(q), vb)
-			ub.Add(ub, big.NewInt(int64(rapid.IntRange(0, 1).Draw(t, "advr"))))
 			ukind = -1
 		}
 		switch ukind {
